@@ -185,7 +185,7 @@ def rule_slots(F, R, rule="R-C11-5", with_evaluate=True):
             if n["k"] == "call" and n.get("op") == "[]" and pp(n["c"][0]) == member:
                 out.append(pp(n["c"][1]))
         return out
-    want = "cast<unsigned long>(((trial * folds()) + fold))"
+    want = CT("cast<unsigned long>(((trial * folds()) + fold))")
     n = 0
     for name, member in (("store", "m_extras"), ("extra", "m_extras"), ("log_path", "m_log_paths")):
         for f in by.get(name, []):
